@@ -1,11 +1,55 @@
-"""P part shared by C14 / C17: writer.consolidate_categories (max of the INTEGER label counts of all chunks, written back under b'pandas')
-and the call sites that must run it on a FileMetaData built from many files."""
+"""P part shared by C14 / C17 (and, for its key-value family, C16): writer.consolidate_categories (max of the INTEGER label counts of all
+chunks, written back under b'pandas'; TOTAL on arbitrary user keys) and the call sites that must run it on a FileMetaData built from many files."""
 from contracts import c14_cats
 from vlib.common import PROVED, REFUTED, UNKNOWN
+
+KEY_SNIPPET = '''import json
+from fastparquet import parquet_thrift as pt
+from fastparquet.writer import consolidate_categories
+meta = json.dumps({"columns": [{"name": "c", "metadata": {"num_categories": 3, "ordered": False}}]}).encode()
+kv = [pt.KeyValue(key=b"sig\\xe2(", value=b"user value"), pt.KeyValue(key=b"pandas", value=meta), pt.KeyValue(key=b"other", value=b"x")]
+fmd = pt.FileMetaData(row_groups=[], key_value_metadata=kv)
+before = [(k.key, k.value) for k in fmd.key_value_metadata if k.key != b"pandas"]
+try:
+    consolidate_categories(fmd)
+    VIOLATED = [(k.key, k.value) for k in fmd.key_value_metadata if k.key != b"pandas"] != before
+    TEXT = "consolidate_categories returned; the other entries are " + ("changed" if VIOLATED else "unchanged")
+except Exception as ex:
+    VIOLATED, TEXT = True, "consolidate_categories raised %s: %s on a FileMetaData with the user key b'sig\\\\xe2('" % (type(ex).__name__, ex)
+'''
+
+
+def replay_key_totality():
+    """the REAL consolidate_categories on a key-value list holding a user key that is not valid UTF-8. -> (confirmed, text)"""
+    from runtime.harness import import_fastparquet
+    import_fastparquet()
+    g = {}
+    exec(KEY_SNIPPET, g)
+    return bool(g["VIOLATED"]), g["TEXT"]
+
+
+def _report(ctx, refuted):
+    for name, model, detail in refuted:
+        fn = "api.ParquetFile.__init__" if name.startswith(("init.", "callers.")) else "writer." + name.split(".")[0] if name.startswith(("merge.", "write_common")) else "writer.consolidate_categories"
+        confirmed, text, snippet = False, (detail or "")[:220], None
+        if name == "cats.total_on_arbitrary_keys":
+            try:
+                confirmed, text = replay_key_totality()
+                snippet = KEY_SNIPPET + "print(TEXT)\n"
+            except Exception as ex:      # the replay helper failed: the violation stands, unconfirmed
+                text = f"replay failed: {type(ex).__name__}: {ex}"
+        ctx.violation(name, {"function": fn, "model": model, "solver_output": str(model)[:600], "replay_result": text, "snippet": snippet},
+                      confirmed, what=text[:300])
 
 
 def p_cats(ctx):
     ctx.assumptions += [a for a in c14_cats.ASSUMED if a not in ctx.assumptions]
-    for name, model, detail in c14_cats.check(ctx, 10000 if ctx.tier == "quick" else 60000):
-        fn = "api.ParquetFile.__init__" if name.startswith(("init.", "callers.")) else "writer." + name.split(".")[0] if name.startswith(("merge.", "write_common")) else "writer.consolidate_categories"
-        ctx.violation(name, {"function": fn, "model": model, "solver_output": str(model)[:600], "snippet": None}, False, what=(detail or "")[:220])
+    _report(ctx, c14_cats.check(ctx, 10000 if ctx.tier == "quick" else 60000))
+
+
+def p_cats_keys(ctx):
+    """the key-value family of the same contract, exposed to C16 (user key-values are kept verbatim: consolidate_categories runs on every
+    open of a list / directory and on every _metadata write, so it must be total on arbitrary user keys and leave their entries alone)"""
+    ctx.assumptions += [a for a in c14_cats.ASSUMED if a not in ctx.assumptions]
+    fam = lambda name: name.startswith(c14_cats.KEY_FAMILY)
+    _report(ctx, c14_cats.check(ctx, 10000 if ctx.tier == "quick" else 60000, only=fam))
